@@ -10,7 +10,7 @@ namespace Lbfgsb
 variable {α ε δ : Type}
 variable [LinearOrder α] [Add α] [Sub α] [Mul α] [Div α] [Neg α] [OfNat α 0] [OfNat α 1] [FloatLike α]
 
-theorem vscale_one (hmul1 : ∀ a : α, a * 1 = a) (v : Vec α) : vscale v 1 = v := by
+theorem vscale_one_r (hmul1 : ∀ a : α, a * 1 = a) (v : Vec α) : vscale v 1 = v := by
   unfold vscale
   induction v with
   | nil => rfl
@@ -53,7 +53,7 @@ theorem prepare_restart (u : User α ε) (c : Cfg α) (ck : Result α) (hck : c.
   unfold prepare firstGrad applyScaler applyUpdate0 at h
   simp only [hck, hS, hU, bind, Except.bind, pure, Except.pure, Bool.false_eq_true, if_false,
     Except.ok.injEq] at h
-  rw [← h, hsc, vscale_one hmul1, hmul1]
+  rw [← h, hsc, vscale_one_r hmul1, hmul1]
 
 theorem classify_fields (c : Cfg α) (s : St α) :
     (classify c s).X = s.X ∧ (classify c s).G = s.G ∧ (classify c s).nit = s.nit ∧ (classify c s).x = s.x := by
